@@ -48,6 +48,8 @@ M = [
     ('children', 'WBS.roots.setter', 'pjplan/wbs.py', "        self.__root.children = value", "        self.__root.children = []", 'list-of-root-tasks'),
     ('children', 'WBS.__remove', 'pjplan/wbs.py', "            if self.__remove(task_to_remove, ch):\n                return True", "            self.__remove(task_to_remove, ch)", 'returns-whether'),
     ('children', 'WBS.remove', 'pjplan/wbs.py', "        return self.__remove(task, self.__root)", "        self.__remove(task, self.__root)\n        return True", 'member'),
+    ('children', 'Task.__lshift__', 'pjplan/task.py', "        \"\"\"Synonym for predecessors.append(other) and predecessors += other\"\"\"\n        self.predecessors += other", "        \"\"\"Synonym for predecessors.append(other) and predecessors += other\"\"\"\n        self.successors += other", 'links-are'),
+    ('children', 'Task.__floordiv__', 'pjplan/task.py', "        self.children += other\n        return other", "        self.children = other\n        return other", 'followed-by'),
     ('closure', 'get_children', 'pjplan/task.py', "                yield ch\n                yield from get_children(ch)", "                yield from get_children(ch)\n                yield ch", 'depth-first'),
     ('closure', 'get_parent', 'pjplan/task.py', "                yield t\n                yield from get_parent(t.parent)", "                yield t", 'ancestors'),
     ('closure', 'get_predecessor', 'pjplan/task.py', "            for pr in t.predecessors:\n                yield pr\n                yield from get_predecessor(pr)", "            for pr in t.predecessors:\n                yield from get_predecessor(pr)", 'every-transitive'),
